@@ -155,6 +155,8 @@ class Capture:
         assert len(ids) == len(specs), (ids, specs)
         atom_of = {id(s): a for s, a in zip(specs, ids)}
         deps = {a: self.atoms[a]["deps"] for a in ids}
+        if cls.__name__.startswith("Point") and "whead" in deps:
+            deps["whead"] = []  # a Point has no heading: plain `with` in both modes
         perms = list(itertools.permutations(range(len(specs))))
         if MAXPERMS[0] and len(perms) > MAXPERMS[0]:
             perms = perms[:: max(1, len(perms) // MAXPERMS[0])][: MAXPERMS[0]]
